@@ -1,10 +1,8 @@
 package main
 
 import (
-	"bytes"
 	"fmt"
 	"go/ast"
-	"go/printer"
 	"go/token"
 	"strings"
 )
@@ -27,12 +25,6 @@ import (
 //
 // Any other statement, a second statement about the same field, or a statement
 // about an unknown field is an error.
-
-func exprString(e ast.Node) string {
-	var b bytes.Buffer
-	_ = printer.Fprint(&b, token.NewFileSet(), e)
-	return b.String()
-}
 
 type cfgField struct {
 	name string
